@@ -70,7 +70,7 @@ execute(const Case &c, bool trace)
            "node_retired_under_guard=%d ids=%d guards=%d forwards=%d skipped=%d executed=%d excluded=%d steps=%lu\n",
            o.probe_collision, o.probe_wrapped, o.waited_full, o.reuse_in_cleanup, o.reuse_after_exit, o.claim_overlaps_exit, o.fwd_with_foreign_guard,
            o.thread_churn, o.quiescent_after_pinned, o.boundary_crossed, o.fwd_inside_getprotected, o.node_retired_under_guard, o.ids_issued, o.guards,
-           o.forwards, o.skipped, o.executed, o.excluded_known, vsched::stats().steps);
+           o.forwards, o.skipped, o.executed, o.excluded_known, vsched::total_steps());
   emit(b);
   emit(std::string("VERDICT ") + (vsched::reports().empty() ? "ok" : "REPORTS") + " phase=" + std::to_string(g_phase) + "\n");
   return vsched::reports().empty() ? 0 : 10;
